@@ -11,7 +11,7 @@ namespace Model
 structure RCol where
   oid : Nat
   col : Column
-  deriving Repr, BEq, DecidableEq, Inhabited
+  deriving Repr, DecidableEq, Inhabited
 
 structure Record where
   dict : List (Text × RCol) := []
@@ -19,7 +19,7 @@ structure Record where
   errors : List VErr := []
   line : Option Nat := none
   mode : Mode := .silent
-  deriving Repr, BEq, DecidableEq, Inhabited
+  deriving Repr, DecidableEq, Inhabited
 
 /-- the key forms accepted by `__getitem__` / `__setitem__` / `__delitem__` -/
 inductive Key where
@@ -28,7 +28,7 @@ inductive Key where
   | column (c : Column)
   | none
   | other
-  deriving Repr, BEq, DecidableEq, Inhabited
+  deriving Repr, DecidableEq, Inhabited
 
 def tdictGet {β} (d : List (Text × β)) (k : Text) : Option β :=
   (List.find? (fun p => p.1 == k) d).map (·.2)
